@@ -1,0 +1,3 @@
+// Only compiled under `cargo kani` (cfg(kani)). The body is generated from run.rs by
+// /verif/lib/shellgen.py into $AELYS_VERIF_GEN/shell.rs on every check run.
+include!(concat!(env!("AELYS_VERIF_GEN"), "/shell.rs"));
